@@ -1156,3 +1156,111 @@ func (c *Ctx) allGuarded(factsAt func(*ssa.BasicBlock) map[fact]bool, op string,
 	}
 	return n > 0 && good
 }
+
+// ---------------------------------------------------------------------------
+// R-NUMBER-WRITE-SIBLINGS (C06; added with fix F30): Integer and Float implement the same WriteTerm contract
+// next to operators and must agree on it (cross-check of sibling implementations):
+//   (1) both ask whether the operator on the left is alphanumeric (letterDigit(left.name)): `a is 1.0` needs
+//       the blank as much as `a is 1`;
+//   (2) both ask whether it is symbolic (graphic(left.name)) for a negative number: `1- -1`;
+//   (3) after a prefix minus every non-negative number is parenthesised: the decision does not compare the
+//       receiver with `> 0` (zero would be written -0, which reads as a number), and the Float version
+//       decides "negative" with math.Signbit (negative zero is not `< 0`: 1 - (-0.0) would be written 1--0.0).
+
+func ruleNumberWriteSiblings(c *Ctx, r *Report) {
+	const rule = "R-NUMBER-WRITE-SIBLINGS"
+	ld, gr := c.fn("letterDigit"), c.fn("graphic")
+	if ld == nil || gr == nil {
+		r.undecided(rule, "anchor", "-", "locate letterDigit and graphic", "not found")
+		return
+	}
+	fromLeft := func(v ssa.Value) bool {
+		hit := false
+		seen := map[ssa.Value]bool{}
+		var walk func(x ssa.Value, d int)
+		walk = func(x ssa.Value, d int) {
+			if x == nil || seen[x] || d > 10 {
+				return
+			}
+			seen[x] = true
+			switch y := x.(type) {
+			case *ssa.FieldAddr:
+				if fieldName(y) == "left" {
+					hit = true
+				}
+				walk(y.X, d+1)
+			case *ssa.Field:
+				walk(y.X, d+1)
+			case *ssa.UnOp:
+				walk(y.X, d+1)
+			case *ssa.Alloc:
+				for _, st := range c.storesTo(y) {
+					walk(st.Val, d+1)
+				}
+			case *ssa.Phi:
+				for _, e := range y.Edges {
+					walk(e, d+1)
+				}
+			}
+		}
+		walk(v, 0)
+		return hit
+	}
+	for _, typ := range []string{"Integer", "Float"} {
+		fn := c.method(typ, "WriteTerm")
+		if fn == nil {
+			r.undecided(rule, "anchor:"+typ+".WriteTerm", "-", "locate "+typ+".WriteTerm", "not found")
+			continue
+		}
+		recv := ssa.Value(fn.Params[0])
+		hasLD, hasGR, hasSignbit := false, false, false
+		var strict ssa.Instruction
+		eachInstr(fn, func(in ssa.Instruction) {
+			switch x := in.(type) {
+			case *ssa.Call:
+				callee := x.Call.StaticCallee()
+				if callee == ld && len(x.Call.Args) == 1 && fromLeft(x.Call.Args[0]) {
+					hasLD = true
+				}
+				if callee == gr && len(x.Call.Args) == 1 && fromLeft(x.Call.Args[0]) {
+					hasGR = true
+				}
+				if callee != nil && callee.Pkg != nil && callee.Pkg.Pkg.Path() == "math" && callee.Name() == "Signbit" {
+					hasSignbit = true
+				}
+			case *ssa.BinOp:
+				isZero := func(v ssa.Value) bool {
+					k, ok := v.(*ssa.Const)
+					return ok && k.Value != nil && constant.Sign(k.Value) == 0 && (k.Value.Kind() == constant.Int || k.Value.Kind() == constant.Float)
+				}
+				onRecv := func(v ssa.Value) bool { return v == recv || c.sameVar(v, recv) }
+				switch {
+				case x.Op == token.GTR && onRecv(x.X) && isZero(x.Y), x.Op == token.LSS && isZero(x.X) && onRecv(x.Y):
+					strict = in
+				case typ == "Float" && (x.Op == token.LSS && onRecv(x.X) && isZero(x.Y) || x.Op == token.GTR && isZero(x.X) && onRecv(x.Y)):
+					strict = in // f < 0 misses negative zero
+				}
+			}
+		})
+		key := fname(fn)
+		if hasLD {
+			r.ok(rule, key+"/left-alphanumeric", c.Pos(fn.Pos()), "a blank separates the number from an alphanumeric operator on its left", "letterDigit(left.name) is consulted", false)
+		} else {
+			r.bad(rule, key+"/left-alphanumeric", c.Pos(fn.Pos()), "a blank separates the number from an alphanumeric operator on its left", "letterDigit(left.name) is not consulted here although the sibling does: `a is 1.0` is written `a is1.0`")
+		}
+		if hasGR {
+			r.ok(rule, key+"/left-symbolic", c.Pos(fn.Pos()), "a blank separates a negative number from a symbolic operator on its left", "graphic(left.name) is consulted", false)
+		} else {
+			r.bad(rule, key+"/left-symbolic", c.Pos(fn.Pos()), "a blank separates a negative number from a symbolic operator on its left", "graphic(left.name) is not consulted here although the sibling does")
+		}
+		switch {
+		case strict != nil:
+			r.bad(rule, key+"/zero", c.at(strict), "zero and negative zero are treated like their neighbours", "the receiver is compared strictly with zero: -(0) is written -0 (reads as a number) / negative zero is not seen as negative (1--0.0)")
+		case typ == "Float" && !hasSignbit:
+			r.bad(rule, key+"/zero", c.Pos(fn.Pos()), "zero and negative zero are treated like their neighbours", "the sign of a float is not taken with math.Signbit")
+		default:
+			r.ok(rule, key+"/zero", c.Pos(fn.Pos()), "zero and negative zero are treated like their neighbours", "no strict comparison of the receiver with zero", false)
+		}
+	}
+	r.analysed(rule, "Integer.WriteTerm Float.WriteTerm")
+}
